@@ -70,8 +70,8 @@ Proof.
   { intros tok Ht. pose proof (control_small tok c Ht) as Hs.
     assert (match c with Close r => (length r <= 127)%nat | _ => True end) by (destruct c; try exact I; apply Hc).
     specialize (Hs H). lia. }
-  assert (Hclose : match c with Close r => forallb (fun b => negb (b =? 0)) r = true | _ => True end).
-  { destruct c; try exact I. destruct Hc as [_ Hn]. clear -Hn.
+  assert (Hclose : match c with Close r => forallb (fun b => negb (b =? 0)) r = true /\ (length r <= 127)%nat | _ => True end).
+  { destruct c; try exact I. destruct Hc as [Hl Hn]. split; [|exact Hl]. clear -Hn.
     induction reason as [|b r IH]; [reflexivity|]. cbn [existsb forallb] in *.
     apply orb_false_iff in Hn as [Hb Hr]. rewrite Hb, (IH Hr). reflexivity. }
   destruct st as [| |t|o|]; try contradiction.
